@@ -463,6 +463,17 @@ def run_model(lines, prefix="cases"):
     return parsed, files
 
 
+def run_light(exe, files, nlines):
+    """is_job_invalid_light(): extracted image vs the real function (as called by imb_set_session)."""
+    m = shard_run(lambda f: ["sh", "-c", "%s light < %s" % (DRIVER, f)], files, common.NCPU)
+    r = shard_run(lambda f: [exe, "l", f], files, common.NCPU)
+    mo = [l.split("|")[0].strip() for rc, o, e in m for l in o]
+    ro = [l for rc, o, e in r for l in o]
+    if len(mo) != nlines or len(ro) != nlines:
+        raise RuntimeError("light tie: %d / %d lines for %d cases" % (len(mo), len(ro), nlines))
+    return sum(1 for a, b in zip(mo, ro) if b != "skip" and a != b), sum(1 for b in ro if b.startswith("reject"))
+
+
 def run_real_a(exe, files, nlines):
     res = shard_run(lambda f: [exe, "a", f], files, common.NCPU)
     out = []
@@ -503,7 +514,7 @@ def cat_errnos(cat):
 def classify(real, cat, disc):
     """Property verdict of one case from the REAL checker verdict and the catalogue.
     Returns None (agrees with the documentation) or a failure kind."""
-    if real == "accept":
+    if real == "accept" or real.startswith("accept errno-set"):   # the latter: returned 0 after setting an error code
         return None if cat == "ok" else "invalid-accepted"
     if not real.startswith("reject"):
         return "harness:" + real
@@ -705,6 +716,9 @@ def main(tier, seed):
     t1 = time.time()
     real = run_real_a(exe, files, len(lines))
     times["real_a"] = round(time.time() - t1, 1)
+    light_diff, light_rej = run_light(exe, files, len(lines))
+    if light_diff:
+        broken.append("tie (a-light): extracted is_job_invalid_light disagrees with the real function on %d descriptors" % light_diff)
 
     # ---------------- (a) translator validation + static property verdict
     stats = collections.Counter()
@@ -781,12 +795,28 @@ def main(tier, seed):
             # a job that satisfies every documented constraint is accepted -- and then faults inside the library
             w = lines[gi].split()
             cls = "VF:cipher=%s,dir=%s" % (w[IDX["cipher_mode"]], w[IDX["dir"]])
+        if cls is None and cat == "ok" and any(x[2].startswith("valid job not completed: status=4") for x in l):
+            w = lines[gi].split()
+            cls = "VR:cipher=%s,hash=%s,%s" % (w[IDX["cipher_mode"]], w[IDX["hash_alg"]], l[0][2].split()[-1])
         if cls is None and cat == "ok" and any(x[2].startswith("valid job not completed") for x in l):
             w = lines[gi].split()
             cls = "VE:cipher=%s,dir=%s" % (w[IDX["cipher_mode"]], w[IDX["dir"]])
-        cls = cls or ("NEW:" + l[0][2].split(":")[0])
+        if cls is None:
+            # anything else is NEW: name it by what failed and by the algorithm pair, not by the individual job
+            w = lines[gi].split()
+            why0 = l[0][2]
+            what = ("wrong-errno-%s" % why0.split()[1] if why0.startswith("errno") else
+                    "invalid-job-accepted" if why0.startswith("invalid job not rejected") else
+                    "rejected-job-touched" if why0.startswith("rejected job:") else
+                    "neighbour-disturbed" if "neighbour" in why0 else
+                    "library-fault-on-invalid-job" if "library-fault" in why0 else
+                    re.sub(r"[^a-z0-9]+", "-", why0.lower())[:40])
+            cls = "NEW:%s-cipher-%s-hash-%s" % (what, w[IDX["cipher_mode"]], w[IDX["hash_alg"]])
         if cls not in findings:
             key, text = DISC_KEYS.get(cls, (cls, l[0][2]))
+            if cls.startswith("VR:"):
+                key = "C12-valid-job-rejected-" + re.sub(r"[^a-z0-9]+", "-", cls[3:])
+                text = "a job satisfying every documented constraint is rejected: " + l[0][2]
             if cls.startswith("VE:"):
                 key = "C12-valid-job-not-processed-" + re.sub(r"[^a-z0-9]+", "-", cls[3:])
                 text = "a job satisfying every documented constraint is accepted but handed back without being processed / with an error code: " + l[0][2]
@@ -820,6 +850,7 @@ def main(tier, seed):
         "errno_histogram": dict(sorted(errno_hist.items(), key=lambda x: -x[1])),
         "translator_validation": {"descriptors": stats["evaluated"], "model_ne_code": len(model_ne_code),
                                   "skipped_not_well_formed_or_unsafe": stats["not-well-formed-or-unsafe"]},
+        "light_check_tie": {"descriptors": len(lines), "model_ne_code": light_diff, "rejected": light_rej},
         "doc_vs_code_classes": {c: len(l) for c, l in prop_fail.items()},
         "api_behaviour": {"cases": len(bidx), "records": bstats["records"], "managers": mgrs,
                           "ok_rejected": bstats["ok-rejected"], "ok_accepted": bstats["ok-accepted"], "fail": bstats["fail"],
